@@ -26,6 +26,9 @@ partial def pValue : P Value := do
   if t = "n" then pure .null
   else if t = "T" then pure (.bool true)
   else if t = "F" then pure (.bool false)
+  else if t = "fnan" then pure .nan
+  else if t = "finf" then pure (.inf false)
+  else if t = "f-inf" then pure (.inf true)
   else if t = "L" then do
     let k ← nat
     let rec go : Nat → P (List Value)
@@ -61,6 +64,9 @@ partial def valueStr : Value → String
   | .bool false => "F"
   | .int i => s!"i{i}"
   | .num q => "f" ++ ratStr q
+  | .nan => "fnan"
+  | .inf false => "finf"
+  | .inf true => "f-inf"
   | .str s => "s" ++ s
   | .list l => " ".intercalate (["L", toString l.length] ++ l.map valueStr)
 
